@@ -4,6 +4,7 @@ import (
 	"bytes"
 	"encoding/json"
 	"fmt"
+	"io"
 	"math/rand"
 	"strconv"
 	"strings"
@@ -28,6 +29,7 @@ type rtStep struct {
 	CC       string `json:"client_context,omitempty"`
 	Trace    string `json:"trace,omitempty"`
 	CT       string `json:"content_type,omitempty"`
+	Chunked  bool   `json:"chunked_upload,omitempty"` // the runtime posts the response without a declared length (Transfer-Encoding: chunked)
 }
 
 type rtHist struct {
@@ -280,6 +282,16 @@ func genC14(tier string, seed int64) []Case {
 		}
 		add(rtHist{Steps: steps, Timeout: 60000, Salt: fmt.Sprintf("event/%d", s-L)})
 	}
+	// the limit does not depend on how the runtime uploads: sizes around it without a declared length
+	for wi, sz := range []int{L - 1, L, L + 1, L + 4096} {
+		steps := []rtStep{
+			{Mode: "response", EvSize: 11, EvKind: "json", RespSize: 7, RespKind: "json", Chunked: true},
+			{Mode: "response", EvSize: 12, EvKind: "json", RespSize: sz, RespKind: payloadKinds[wi%len(payloadKinds)], Chunked: true},
+			{Mode: "response", EvSize: 13, EvKind: "json", RespSize: L + 1, RespKind: "random"},
+			{Mode: "response", EvSize: 14, EvKind: "json", RespSize: 9, RespKind: "json", Chunked: wi%2 == 0},
+		}
+		add(rtHist{Steps: steps, Timeout: 60000, Exts: wi % 2, Salt: fmt.Sprintf("chunked/%d", sz-L)})
+	}
 	// oversized twice in a row, oversized error body, 2L
 	add(rtHist{Steps: []rtStep{
 		{Mode: "response", EvSize: 1, EvKind: "json", RespSize: L + 1, RespKind: "random"},
@@ -318,7 +330,7 @@ func genC14(tier string, seed int64) []Case {
 					}
 					return r.Intn(2000)
 				}
-				steps = append(steps, rtStep{Mode: "response", EvSize: pick(), EvKind: payloadKinds[r.Intn(len(payloadKinds))], RespSize: pick(), RespKind: payloadKinds[r.Intn(len(payloadKinds))]})
+				steps = append(steps, rtStep{Mode: "response", EvSize: pick(), EvKind: payloadKinds[r.Intn(len(payloadKinds))], RespSize: pick(), RespKind: payloadKinds[r.Intn(len(payloadKinds))], Chunked: r.Intn(3) == 0})
 			}
 			add(rtHist{Steps: steps, Timeout: 60000, Exts: r.Intn(2), Salt: fmt.Sprintf("rand/%d/%d", seed, i)})
 		}
@@ -419,7 +431,12 @@ func runRoundTrip(c *Ctx, h rtHist) {
 		}
 		switch st.Mode {
 		case "response", "initerror":
-			rr := pt.Respond(ev.ReqID(), bodies[i], map[string]string{"Content-Type": "application/octet-stream"})
+			var rr *vh.Resp
+			if st.Chunked {
+				rr = pt.RespondStream(ev.ReqID(), struct{ io.Reader }{bytes.NewReader(bodies[i])}, bodies[i])
+			} else {
+				rr = pt.Respond(ev.ReqID(), bodies[i], map[string]string{"Content-Type": "application/octet-stream"})
+			}
 			s.PostSt, s.PostEt, s.Posted = rr.Status, rr.Etype, bodies[i]
 		case "error":
 			rr := pt.Error(ev.ReqID(), bodies[i], map[string]string{"Content-Type": "application/json", "Lambda-Runtime-Function-Error-Type": "Function.Custom"})
